@@ -168,6 +168,26 @@ Theorem C14_names_history_independent_refuted_for_global_func_counter :
 Proof. exact names_history_independent_refuted_for_global_func_counter. Qed.
 Print Assumptions C14_names_history_independent_refuted_for_global_func_counter.
 
+(* ---- (b') plugins/jax/lax/gather.py: module-level flag _CONST_HANDLERS_REGISTERED guarding a registration
+   on the per-context constant folder.  FALSE of the faithful model: a fresh process folds, a process that
+   already exported a gather does not ... *)
+Theorem C14_handlers_history_independent_refuted :
+  exists h1 h2 r, gather_obs_after false h1 r <> gather_obs_after false h2 r.
+Proof. exact handlers_history_independent_refuted. Qed.
+Print Assumptions C14_handlers_history_independent_refuted.
+
+(* ... it holds for histories without an earlier gather conversion ... *)
+Theorem C14_handlers_history_partial : forall h r,
+  existsb (fun u => u) h = false -> gather_obs_after false h r = gather_obs_after false [] r.
+Proof. exact handlers_history_partial. Qed.
+Print Assumptions C14_handlers_history_partial.
+
+(* ... and for every history once the guard lives on the context (the proposed repair) *)
+Theorem C14_handlers_history_independent_if_guard_per_context : forall h1 h2 r,
+  gather_obs_after true h1 r = gather_obs_after true h2 r.
+Proof. exact handlers_history_independent_if_guard_per_context. Qed.
+Print Assumptions C14_handlers_history_independent_if_guard_per_context.
+
 (* ---- (c) the lowering-signature memo table *)
 Theorem C14_signature_cache_transparent : forall (V : Type) (f : nat -> V) ks t,
   memo_consistent V f t ->
